@@ -270,31 +270,42 @@ def run_points(known):
     return [p for p in known if p not in START_ONLY and p not in FOLLOWER_ONLY]
 
 
-def spec_for(rnd, p, kclass, stall=None):
+def spec_for(rnd, p, kclass, stall=None, sure=False):
     if p in START_ONLY:
         return "S:%s:1" % p
     if p.startswith(("sn.", "ck.", "ps.")):
         k = {"first": 1, "random": rnd.randint(1, 3), "last": 3}[kclass]
+        if sure:
+            k = min(k, 2)     # the third snapshot of a life of 70 writes may not get through all its sub-steps
     elif p.startswith("wl."):
         k = 1
     else:
         k = {"first": rnd.randint(1, 3), "random": rnd.randint(1, OPS_MAX), "last": OPS_MAX - rnd.randint(0, 19)}[kclass]
+        if sure and kclass != "first":
+            # quick tier: every point must fire in its one life (some points are hit less than once per write)
+            k = rnd.randint(4, 30) if kclass == "random" else rnd.randint(35, 48)
     if stall is None:
         stall = rnd.choice([0, 0, 0, 5, 30, 120])
     return "P:%s:%d:%d" % (p, k, stall)
 
 
-def gen_jobs(seed, ndirs, cycles, engines, known):
+def gen_jobs(seed, ndirs, cycles, engines, known, cover_once=False):
     rnd = __import__("random").Random(seed)
-    pool = [(p, kc) for p in run_points(known) for kc in ("first", "random", "last")]
-    pool += [(p, "first") for p in START_ONLY] * 2
+    if cover_once:
+        # quick tier: every named point once per run, its k class (first / random / last) rotating with the seed
+        kcs = ("first", "random", "last")
+        pool = [(p, kcs[(i + seed) % 3]) for i, p in enumerate(run_points(known))]
+        pool += [(p, "first") for p in START_ONLY if not p.startswith("pg.")]
+    else:
+        pool = [(p, kc) for p in run_points(known) for kc in ("first", "random", "last")]
+        pool += [(p, "first") for p in START_ONLY] * 2
     rnd.shuffle(pool)
     jobs = []
     pi = 0
     for d in range(ndirs):
         specs = ["X:%d:%d" % (rnd.randint(45, OPS_MAX - 1), rnd.randint(0, 7))]
         while len(specs) < cycles:
-            c = rnd.random()
+            c = 1.0 if cover_once else rnd.random()
             if c < 0.12:
                 specs.append("X:%d:%d" % (rnd.randint(1, OPS_MAX - 1), rnd.randint(0, 7)))
             elif c < 0.2:
@@ -302,7 +313,15 @@ def gen_jobs(seed, ndirs, cycles, engines, known):
             else:
                 p, kc = pool[pi % len(pool)]
                 pi += 1
-                specs.append(spec_for(rnd, p, kc))
+                specs.append(spec_for(rnd, p, kc, sure=cover_once))
+        if cover_once and d < 2:
+            # the purge loops act at the start of a node that finds more than KeepBackup snap files / KeepWAL segments
+            # (two lives of writes first: three snapshots and three WAL segments at least)
+            specs.insert(1, "X:%d:%d" % (rnd.randint(30, OPS_MAX - 1), rnd.randint(0, 7)))
+            specs.insert(2, "S:pg.remove.%s:1" % ("before", "after")[d])
+        if cover_once and d < len(START_ALSO):
+            # a death during the restart itself at a point that is also hit by a running node
+            specs.append("S:%s:1" % START_ALSO[(d + seed) % len(START_ALSO)])
         jobs.append(dict(seed=rnd.randrange(1 << 40), engine=engines[d % len(engines)], optfsync=(d % 3 != 2), ops_max=OPS_MAX, specs=specs))
     return jobs
 
@@ -402,6 +421,11 @@ def evaluate(d, jobs):
             key = sp[0] + ":" + (sp[1] if sp[0] in ("P", "S") else "")
             hist[key] = hist.get(key, 0) + 1
             hist["death=" + r["death"]] = hist.get("death=" + r["death"], 0) + 1
+            hist["max_life_ms"] = max(hist.get("max_life_ms", 0), int(r.get("life_ms") or 0))
+            ev = r.get("events") or []
+            if r["death"] in ("crashpoint", "startup-crashpoint") and ev and ev[-1].startswith("KILL "):
+                kp = "killed_at:" + ev[-1].split()[1]
+                hist[kp] = hist.get(kp, 0) + 1
             hist["engine=" + r["engine"]] = hist.get("engine=" + r["engine"], 0) + 1
         if len(samples) < 4 and runs:
             r = runs[min(1, len(runs) - 1)]
@@ -454,7 +478,7 @@ def run(ctx):
             corpus += json.load(open(fp))["jobs"]
         batches.append(("corpus", corpus))
         if quick:
-            batches.append(("fresh", gen_jobs(ctx.seed, 8, 4, ["pebble", "pebble", "mem", "rocksdb"], known)))
+            batches.append(("fresh", gen_jobs(ctx.seed, 12, 4, ["pebble", "rocksdb", "mem"], known, cover_once=True)))
         else:
             batches.append(("fresh", gen_jobs(ctx.seed, 320, 9, engines, known)))
             batches.append(("systematic", gen_systematic(ctx.seed, engines, known, [1, 2, 3, 4, 5, 8, 13, 21, 34, 47, 55, 69])))
@@ -464,7 +488,16 @@ def run(ctx):
     lives_total = events_total = cmp_total = 0
     distinct = set()
     inconclusive = 0
-    for name, jobs in batches:
+    bi = 0
+    while bi < len(batches):
+        name, jobs = batches[bi]
+        bi += 1
+        if quick and not ctx.replay and bi == len(batches) and name != "topup":
+            # every named crash point fires at least once per run: one more directory for each point the schedule missed
+            # (a point can be missed when the machine is loaded: the k-th hit did not come before the writes ended)
+            pending_topup = True
+        else:
+            pending_topup = False
         if not jobs:
             continue
         d, err = run_harness(ctx, name, jobs, workers)
@@ -499,7 +532,17 @@ def run(ctx):
         for k, v in stats.items():
             stats_all[k] = stats_all.get(k, 0) + v
         for k, v in hist.items():
-            hist_all[k] = hist_all.get(k, 0) + v
+            hist_all[k] = max(hist_all.get(k, 0), v) if k.startswith("max_") else hist_all.get(k, 0) + v
+        if pending_topup:
+            got = set(k.split(":", 1)[1] for k in hist_all if k.startswith("killed_at:"))
+            miss = [p for p in known if p not in FOLLOWER_ONLY and p not in got]
+            if miss:
+                rnd = __import__("random").Random(ctx.seed + 99)
+                tj = []
+                for i, p in enumerate(miss):
+                    sp = ["X:%d:0" % rnd.randint(50, OPS_MAX - 1), "X:%d:0" % rnd.randint(30, OPS_MAX - 1), spec_for(rnd, p, "first", stall=0)]
+                    tj.append(dict(seed=rnd.randrange(1 << 40), engine=["pebble", "rocksdb", "mem"][i % 3], optfsync=True, ops_max=OPS_MAX, specs=sp))
+                batches.append(("topup", tj))
         samples += smp
         for di, runs in dirs.items():
             for r in runs:
@@ -513,6 +556,18 @@ def run(ctx):
         if dpl is not None:
             powerloss = evaluate_powerloss(dpl)
             ctx.notes.append("simulated power loss (outside C06's crash model; W1): %s" % json.dumps(powerloss))
+    # the schedule hypothesis of the theorems (ProofsMain.sched_ok), evaluated by the acceptor (Path.sched_holds) before
+    # every event: an event log on which it is false is rejected (reason 106) and fails the correspondence
+    if model_stats.get("sched_hypothesis_false", 0) > 0 and not any("rej:" in (m[2] or "") and ":106:" in (m[2] or "") for m in all_mism):
+        ctx.notes.append("the schedule hypothesis was false on %d explored event-log branches; the accepted branches satisfy it" % model_stats["sched_hypothesis_false"])
+    consts_txt = open(os.path.join(vlib.COQ, "Recover", "Consts.v")).read()
+    mm_iv = re.search(r"snap_purge_interval_min : nat := (\d+)", consts_txt)
+    purge_interval_s = 60 * int(mm_iv.group(1)) if mm_iv else None
+    max_life_s = hist_all.get("max_life_ms", 0) / 1000.0
+    killed_at = sorted(k.split(":", 1)[1] for k in hist_all if k.startswith("killed_at:"))
+    never_killed_at = [p for p in known if p not in FOLLOWER_ONLY and p not in killed_at]
+    if never_killed_at and not ctx.replay:
+        ctx.notes.append("named crash points at which no kill fired in this run: " + ",".join(never_killed_at))
     if unknown_pts or missing_pts:
         all_mism.append(("points", "source: " + ",".join(unknown_pts), "harness/model: " + ",".join(missing_pts), None))
     if inconclusive:
@@ -552,6 +607,16 @@ def run(ctx):
         crash_point_events_accepted=events_total,
         crash_points_in_source=len(src_pts),
         powerloss_simulation=powerloss,
+        crash_points_killed_at=len(killed_at),
+        crash_points_never_killed_at=never_killed_at,
+        purge_schedule=dict(interval_s=purge_interval_s, first_pass_at_start=True, max_life_s=max_life_s,
+                            note="constants read from node/raft.go and pkg/fileutil/purge.go by crashnode -consts; every life of the run is shorter "
+                                 "than the interval, so every purge decision observed belongs to the pass at the start of a life"
+                                 if (purge_interval_s and max_life_s < purge_interval_s) else "a life lasted longer than the purge interval: timer passes may have been observed"),
+        schedule_hypothesis=dict(evaluated_by="Path.sched_holds (extracted) before every accepted event; a log on which it is false is rejected (reason 106)",
+                                 snap_purge_decisions=model_stats.get("snap_purge_decisions", 0),
+                                 max_window_at_snap_purge=model_stats.get("max_window_at_snap_purge", -1),
+                                 keep_backup=2, holds=not any(":106:" in (m[2] or "") for m in all_mism)),
         acceptor=dict(model_stats, note="max_window_at_snap_purge = most snapshot goroutines between 'snap file written' and 'WAL marker written' at a "
                                         "decision of the snap directory purge (the schedule hypothesis of the theorems needs fewer than KeepBackup = 2 there; "
                                         "-1 = no such decision seen); max_window = the same over all states; log_order_races = events accepted after "
